@@ -186,6 +186,7 @@ def finish(res: Results, *, seed: int = 0) -> int:
             "analysed": res.analysed,
             "positive_controls": res.controls,
             "samples": samples or [{"note": "no instances"}],
+            "all_violations": [i.brief() for i in res.instances if i.status == VIOLATION][:600],
             "exhaustive": True,
             "trusted_base": res.trusted,
             "checker_cmd": f"/venv/bin/python -m sa.cli check {res.prop} --tier {res.tier}",
